@@ -221,11 +221,12 @@ impl Cqueue {
         }
 
         use generator::Error;
-        match self.selectors.lock().unwrap()[id]
+        // don't hold the lock while joining: re-raising the panic below would poison
+        // it and the drop of the cqueue panics on the poisoned lock while unwinding
+        let handle = self.selectors.lock().unwrap()[id]
             .take()
-            .expect("join handler not set")
-            .join()
-        {
+            .expect("join handler not set");
+        match handle.join() {
             Ok(_) => {}
             Err(panic) => {
                 if let Some(err) = panic.downcast_ref::<Error>() {
